@@ -308,7 +308,7 @@ pub fn configs(args: &Args) -> Vec<Cfg> {
         c
     };
     // Linear
-    for n in 2..=(if thorough { 4 } else { 3 }) {
+    for n in 2..=(if thorough { 5 } else { 4 }) {
         for trailing in [vec![], vec![2]] {
             for call in calls_1(trailing.is_empty()) {
                 v.push(Cfg { kind: Kind::Linear, nx: n, ny: 0, trailing: trailing.clone(), call, extrapolate: false, default_axes: false, dynamic: false, timeout_ms });
@@ -317,20 +317,17 @@ pub fn configs(args: &Args) -> Vec<Cfg> {
         v.push(Cfg { kind: Kind::Linear, nx: n, ny: 0, trailing: vec![], call: Call::Array(vec![2], QRank::Static), extrapolate: false, default_axes: true, dynamic: false, timeout_ms });
         v.push(Cfg { kind: Kind::Linear, nx: n, ny: 0, trailing: vec![2], call: Call::Array(vec![2], QRank::Dyn), extrapolate: false, default_axes: false, dynamic: true, timeout_ms });
     }
-    if thorough {
+    {
         for call in [Call::Array(vec![3], QRank::Static), Call::Array(vec![2, 2], QRank::Static), Call::ArrayInto(vec![2, 2], QRank::Dyn)] {
             v.push(Cfg { kind: Kind::Linear, nx: 3, ny: 0, trailing: vec![], call, extrapolate: false, default_axes: false, dynamic: false, timeout_ms });
         }
     }
     // CubicSpline
     for kind in spline_kinds() {
-        for n in 3..=(if thorough { 4 } else { 3 }) {
+        for n in 3..=(if thorough { 5 } else { 4 }) {
             let multi = matches!(kind, Kind::Spline(Bc::Individual(_)));
             for (k, call) in calls_1(true).into_iter().enumerate() {
                 let trailing = if !multi && k % 3 == 2 && call != Call::Scalar { vec![2] } else { vec![] };
-                if !thorough && n == 3 && k % 2 == 1 && !matches!(kind, Kind::Spline(Bc::NotAKnot)) {
-                    continue;
-                }
                 v.push(Cfg { kind: kind.clone(), nx: n, ny: 0, trailing, call, extrapolate: false, default_axes: false, dynamic: false, timeout_ms });
             }
         }
@@ -343,12 +340,9 @@ pub fn configs(args: &Args) -> Vec<Cfg> {
         }
         c
     };
-    for (nx, ny) in if thorough { vec![(2, 3), (3, 2), (3, 3)] } else { vec![(2, 3), (3, 2)] } {
+    for (nx, ny) in if thorough { vec![(2, 3), (3, 2), (3, 3), (4, 2)] } else { vec![(2, 3), (3, 2), (3, 3)] } {
         for trailing in [vec![], vec![2]] {
-            for (k, call) in calls_2(trailing.is_empty()).into_iter().enumerate() {
-                if !thorough && call.n_queries() > 1 && (k + nx) % 2 == 0 {
-                    continue;
-                }
+            for (_k, call) in calls_2(trailing.is_empty()).into_iter().enumerate() {
                 v.push(Cfg { kind: Kind::Bilinear, nx, ny, trailing: trailing.clone(), call, extrapolate: false, default_axes: false, dynamic: false, timeout_ms });
             }
         }
@@ -385,8 +379,8 @@ pub fn run(args: &Args) -> Report {
     for f in FUNCTIONS {
         rep.functions.insert(f.to_string());
     }
-    rep.bounds.push(format!("Linear n = 2..{0}; CubicSpline (NotAKnot, Natural, Clamped, Periodic, Individual[Mixed(FirstDeriv,NotAKnot)]) n = 3..{0}; Bilinear 2x3, 3x2{1}; 1 and 2 lanes", if args.thorough() { 4 } else { 3 }, if args.thorough() { ", 3x3" } else { "" }));
-    rep.bounds.push("entry points interp_scalar, interp, interp_into, interp_array with query Ix1 x1 / Ix1 x2 / Ix2 1x2 / IxDyn x2, interp_array_into; batches of 2 (thorough: 3 and 2x2) symbolic elements".into());
+    rep.bounds.push(format!("Linear n = 2..{0}; CubicSpline (NotAKnot, Natural, Clamped, Periodic, Individual[Mixed(FirstDeriv,NotAKnot)]) n = 3..{0}; Bilinear 2x3, 3x2{1}; 1 and 2 lanes", if args.thorough() { 5 } else { 4 }, if args.thorough() { ", 3x3, 4x2" } else { ", 3x3" }));
+    rep.bounds.push("entry points interp_scalar, interp, interp_into, interp_array with query Ix1 x1 / Ix1 x2 / Ix2 1x2 / IxDyn x2, interp_array_into; batches of 2, 3 and 2x2 symbolic elements".into());
     rep.bounds.push("axis values: all IEEE doubles under x_i < x_i+1; data, boundary values: unconstrained IEEE doubles; every query element an unconstrained IEEE double (NaN, +-inf, +-0 included)".into());
     rep.outside.push("axis lengths above the bound; batches larger than the bound".into());
     rep.assumptions.insert("mode O: comparisons bit-precise IEEE (SMT FloatingPoint), arithmetic uninterpreted (sound over-approximation of the f64 code)".into());
